@@ -50,7 +50,7 @@ def gen_values(rng, n, pool):
     raise ValueError(pool)
 
 
-def gen_fa(rng, cls=None, max_states=5, max_syms=3, pool=None, eps=True):
+def gen_fa(rng, cls=None, max_states=5, max_syms=3, pool=None, eps=True, allow_via_tf=False):
     """abstract automaton over codes 0..n-1; symbol codes 0..k-1"""
     cls = cls or rng.choice("EEEND")
     n = rng.choice([0, 1, 1, 2, 2, 3, 3, 3, 4, 4, 5][:max_states * 2 + 1]) if max_states >= 5 \
@@ -125,7 +125,10 @@ def gen_fa(rng, cls=None, max_states=5, max_syms=3, pool=None, eps=True):
     churn_query = bool(churn) and rng.random() < 0.6
     return {"cls": cls, "svals": svals, "symvals": symvals, "starts": starts, "finals": finals,
             "delta": delta, "extra_syms": extra_syms, "iso": iso, "churn": churn, "churn_query": churn_query,
-            "prechurn": prechurn}
+            "prechurn": prechurn,
+            # the transition function is built first and handed to the constructor (with or without the sets of
+            # states and symbols it uses)
+            "via_tf": allow_via_tf and rng.random() < 0.08, "tf_declared": rng.random() < 0.3}
 
 
 def enumerate_fa(max_states, nsyms, cls="E", eps=True):
@@ -149,6 +152,8 @@ def build(spec):
     """construct through the public API; returns the automaton"""
     cls = CLS[spec["cls"]]
     sv, yv = spec["svals"], spec["symvals"]
+    if spec.get("via_tf"):
+        return build_via_tf(spec, cls, sv, yv)
     if spec.get("iso"):
         fa = cls(states={sv[q] for q in spec["iso"]})
     else:
@@ -181,6 +186,28 @@ def build(spec):
             fa.remove_start_state(sv[item[1]])
         else:
             fa.remove_final_state(sv[item[1]])
+    return fa
+
+
+def build_via_tf(spec, cls, sv, yv):
+    """the transition function is filled first and given to the constructor"""
+    from pyformlang.finite_automaton import TransitionFunction, NondeterministicTransitionFunction
+    tf = TransitionFunction() if spec["cls"] == "D" else NondeterministicTransitionFunction()
+    for q, a, r in spec["delta"]:
+        tf.add_transition(State(sv[q]), Epsilon() if a is None else Symbol(yv[a]), State(sv[r]))
+    kw = {"transition_function": tf, "final_states": {sv[q] for q in spec["finals"]}}
+    if spec["cls"] == "D":
+        kw["start_state"] = sv[spec["starts"][0]] if spec["starts"] else None
+    else:
+        kw["start_state"] = {sv[q] for q in spec["starts"]}
+    if spec.get("iso"):
+        kw["states"] = {sv[q] for q in spec["iso"]}
+    if spec.get("tf_declared"):
+        kw["states"] = set(kw.get("states", set())) | {sv[t[0]] for t in spec["delta"]} | {sv[t[2]] for t in spec["delta"]}
+        kw["input_symbols"] = {yv[t[1]] for t in spec["delta"] if t[1] is not None}
+    fa = cls(**kw)
+    for a in spec.get("extra_syms", []):
+        fa.add_symbol(yv[a])
     return fa
 
 
